@@ -122,8 +122,13 @@ impl SlowlogRecord {
 
         let limit_len = |mut s: String| {
             let real_len = s.len();
-            s.truncate(MAX_ELEMENT_LENGTH);
             if real_len > MAX_ELEMENT_LENGTH {
+                // `String::truncate` panics when the new length is not on a char boundary.
+                let mut end = MAX_ELEMENT_LENGTH;
+                while !s.is_char_boundary(end) {
+                    end -= 1;
+                }
+                s.truncate(end);
                 let postfix = format!("({}bytes)", real_len);
                 s.push_str(&postfix)
             }
